@@ -27,6 +27,11 @@ CHECKS = {
    note='Trusted: kernpy on the undamaged text as the reference path (a consistently wrong import is invisible: that is C01-C03); the strict-family vocabulary really is unparseable (justified from the lexer alphabet and grammar, probed on the tree); the exporter drops rows whose exported cells are all placeholders. Two genuine defects are listed as known findings (prefix-accepted, separator-stripped) with matchers tied to the injected fault family and the exact observed shape.',
    technique='deterministic simulation: seeded corrupted-cell fault plans + token histories on long-lived importers vs undamaged reference run, ddmin-minimised replay',
    design='4.1', engine='sim-import'),
+ 'C15': dict(
+   text='Seeded call histories (<=8 operations) over a pool of aliasing document handles - sources, clones, transposed results, results transposed again or back - with the cross-invariant "every live handle still exports (six encodings) what it exported when it was created" after every operation, and each result compared cell by cell with the source export in which only the pitch fields of the notes are replaced by an independent letter/semitone interval model. The 40 interval names x 2 directions are swept completely by every 80 consecutive runs. Faults: invalid interval/direction, intervals that become unspellable midway through the rewrite, and to_transposed interrupted at a seeded line event; a failed call must leave every handle as it was. Core configuration (single notes without explicit accidentals) is strict; accidentals, chords and note-like cells of **root/**mxhm are explored and matched to three known findings by exact shape.',
+   note='Trusted: the interval model (diatonic steps, semitones from quality and number); kernpy\'s export of the SOURCE as the frame against which the result is compared; pitches needing more than two accidentals are unconstrained; note cells are located through the generator\'s abstract document.',
+   technique='deterministic simulation: seeded histories over aliasing document handles vs reference pitch model, cross-handle invariants, interruption faults, ddmin-minimised replay',
+   design='4.3', engine='sim-history'),
  'C16': dict(
    text='Seeded search over call histories (8-30 operations) on ONE shared importer, ONE shared exporter and a pool of reused pitch objects, against an independent (letter, alteration, octave) <-> spelling model, with the invariant "every pool object still equals its model" after every operation; the 539-spelling grid is visited completely by every 539 consecutive runs (quick = 12 sweeps, thorough = 400). Faults: invalid spellings/arguments between valid calls and exports interrupted at a seeded line event. Exploration is the right level: the grid is finite and covered, the interleavings over shared objects are sampled.',
    note='Trusted: the Humdrum spelling rule as written in simkit-free model code in checks/c16.py; sys.monitoring delivering LINE events; objects returned by to_transposed are modelled by the same call on a fresh equal object.',
